@@ -65,7 +65,7 @@ Is(e) == l <= NRec /\ E.e = e
 
 (* record requirement failures: block in strict mode *)
 Flag(bad) == /\ (Strict => bad \ Ignore = {})
-             /\ viol' = viol \cup bad
+             /\ viol' = IF Strict THEN viol ELSE viol \cup bad
 
 Pending(t) == pend[t].op # "none"
 OthersPending(t) == {u \in Threads : u # t /\ Pending(u)}
